@@ -230,7 +230,7 @@ func bootWith(db *memorydb.Database, cfg cacheCfg, kind string, giveGenesis bool
 	txcfg.Journal = ""
 	txcfg.Broadcast = false
 	n.pool = tx_pool.NewTxPool(txcfg, n.bc.Config(), n.bc)
-	su, err := staking.NewSmcStakingUtil()
+	su, err := sharedStakingUtil()
 	if err != nil {
 		return nil, err
 	}
@@ -262,6 +262,17 @@ func bootWith(db *memorydb.Database, cfg cacheCfg, kind string, giveGenesis bool
 		return nil, fmt.Errorf("LoadStateFromDBOrGenesisDoc: %w", err)
 	}
 	return n, nil
+}
+
+// The staking utility is an immutable value (parsed ABI, contract address, bytecode): parsed once per process and
+// shared by all nodes (parsing it costs more than starting a node on an existing database).
+var stakingOnce sync.Once
+var stakingUtil *staking.StakingSmcUtil
+var stakingErr error
+
+func sharedStakingUtil() (*staking.StakingSmcUtil, error) {
+	stakingOnce.Do(func() { stakingUtil, stakingErr = staking.NewSmcStakingUtil() })
+	return stakingUtil, stakingErr
 }
 
 var nopBus = func() *types.EventBus {
